@@ -231,6 +231,14 @@ func (e *kvElection) logTakeoverAfterRefusedRefresh(ctx context.Context, updateE
 	if !strings.Contains(strings.ToLower(updateErr.Error()), "revision mismatch") {
 		return
 	}
+	// The demotion callback has run in between and may have taken a while: a run that
+	// has been stopped or has ended meanwhile issues no further store operation.
+	e.mu.RLock()
+	running := e.running()
+	e.mu.RUnlock()
+	if !running {
+		return
+	}
 	read := make(chan Entry, 1)
 	go func() {
 		entry, getErr := e.kv.Get(e.key)
